@@ -6,6 +6,9 @@ Extracted (fail closed: any other shape raises TranslateError):
                  `abs(sum_values-1) > epsilon`; the key reversal `{k[::-1]: v ...}`;
                  remove_qubit_indices' accumulator default `new_counts.get(new_bitstring, 0)`
   post_selection.py  the accumulator defaults of split_frequency_dict_for_last_n_digits
+  bootstrapping.py  the chunk loop of get_resampled_frequencies: `chunk_size = 10**7`,
+                 `n_chunks = ncount // chunk_size`, `for i in range(n_chunks+1)`,
+                 `this_chunk = ncount % chunk_size if i == n_chunks else chunk_size`, `v / ncount`
   backend.py     the sign rule `(-1) ** (... .count("1") % 2)` of the one-term expectation
 The numbers go into Coq as exact rationals (a Python float literal is a dyadic rational)."""
 import ast
@@ -76,6 +79,35 @@ def extract(repo):
     if len(gets) != 2 or any(len(g.args) != 2 for g in gets):
         raise TranslateError("split_frequency_dict_for_last_n_digits: two accumulators expected")
     t["split_defaults"] = [Fraction(_const(g.args[1], "split accumulator default")) for g in gets]
+    bs = parse(repo / "tangelo/toolboxes/post_processing/bootstrapping.py")
+    rs = find_def(bs, "get_resampled_frequencies")
+
+    def _assign(name):
+        hits = [n.value for n in ast.walk(rs) if isinstance(n, ast.Assign) and len(n.targets) == 1 and _is_name(n.targets[0], name)]
+        if len(hits) != 1:
+            raise TranslateError("get_resampled_frequencies: expected exactly one assignment to %s, found %d" % (name, len(hits)))
+        return hits[0]
+    cz = _assign("chunk_size")
+    if isinstance(cz, ast.BinOp) and isinstance(cz.op, ast.Pow):
+        t["resample_chunk_size"] = _const(cz.left, "chunk_size base", (int,)) ** _const(cz.right, "chunk_size exponent", (int,))
+    else:
+        t["resample_chunk_size"] = _const(cz, "chunk_size", (int,))
+    if t["resample_chunk_size"] <= 0:
+        raise TranslateError("get_resampled_frequencies: chunk_size is not positive")
+    if ast.unparse(_assign("n_chunks")).replace(" ", "") != "ncount//chunk_size":
+        raise TranslateError("get_resampled_frequencies: n_chunks is not `ncount // chunk_size`: %s" % ast.unparse(_assign("n_chunks")))
+    loops = [n for n in ast.walk(rs) if isinstance(n, ast.For) and _is_name(n.target, "i")]
+    if len(loops) != 1 or ast.unparse(loops[0].iter).replace(" ", "") != "range(n_chunks+1)":
+        raise TranslateError("get_resampled_frequencies: the chunk loop is not `for i in range(n_chunks+1)`")
+    tc = ast.unparse(_assign("this_chunk")).replace(" ", "")
+    if tc != "ncount%chunk_sizeifi==n_chunkselsechunk_size":
+        raise TranslateError("get_resampled_frequencies: unexpected chunk size rule: %s" % ast.unparse(_assign("this_chunk")))
+    rv = [n for n in ast.walk(loops[0]) if isinstance(n, ast.Call) and isinstance(n.func, ast.Attribute) and n.func.attr == "rvs"]
+    if len(rv) != 1 or len(rv[0].keywords) != 1 or rv[0].keywords[0].arg != "size" or not _is_name(rv[0].keywords[0].value, "this_chunk"):
+        raise TranslateError("get_resampled_frequencies: the sampler is not called once per chunk with size=this_chunk")
+    fq = _assign("frequencies")
+    if not (isinstance(fq, ast.DictComp) and ast.unparse(fq.value).replace(" ", "") == "v/ncount"):
+        raise TranslateError("get_resampled_frequencies: frequencies are not `v / ncount`")
     b = parse(repo / "tangelo/linq/target/backend.py")
     one = find_def(b, "get_expectation_value_from_frequencies_oneterm")
     pw = [n for n in ast.walk(one) if isinstance(n, ast.BinOp) and isinstance(n.op, ast.Pow)]
@@ -95,7 +127,8 @@ def extract(repo):
 # last known-good extraction (tangelo as of the C18 check's first run); used by the check only as a clearly
 # labelled fallback when extract() fails closed, so that the search for a concrete failing input can go on
 FALLBACK = {"default_n_shots": 0, "default_msq_first": False, "default_epsilon": Fraction(1e-2), "conversion": "round_per_key",
-            "remove_default": Fraction(0), "split_defaults": [Fraction(0), Fraction(0)], "sign_base": -1, "parity_modulus": 2}
+            "remove_default": Fraction(0), "split_defaults": [Fraction(0), Fraction(0)], "sign_base": -1, "parity_modulus": 2,
+            "resample_chunk_size": 10**7}
 
 
 def _q(x):
@@ -116,4 +149,5 @@ def emit(t):
         "Definition accumulator_start : Qc := %s." % _q(t["remove_default"]),
         "Definition sign_base : Z := (%d)%%Z." % t["sign_base"],
         "Definition parity_modulus : Z := (%d)%%Z." % t["parity_modulus"],
+        "Definition resample_chunk_size : Z := (%d)%%Z." % t["resample_chunk_size"],
         ""])
